@@ -65,7 +65,7 @@ def direct_part(chk, tier, binary):
     if tier == 'quick':
         lists = list(match.descriptor_lists(2, 2))
         names = list(match.names(3))
-        nrand = 30000
+        nrand = 150000
     else:
         lists = list(match.descriptor_lists(2, 3))
         names = list(match.names(3))
